@@ -1261,7 +1261,10 @@ class xfunc_op_base(xfunc):
     def reduce(self, cube, regions):
         """Return `regions` reduced to proper output."""
         output_values, output_validity = regions
-        output_values[~output_validity] = self.null
+        # Cast explicitly: NaN becomes NaT for datetime values, where plain
+        # item assignment of a float raises.
+        null = numpy.asarray(self.null).astype(output_values.dtype)
+        output_values[~output_validity] = null
 
         if isinstance(self.return_missing_as, tuple):
             return output_values, output_validity
